@@ -2,7 +2,7 @@
 """Run every seeded change in /verif/seeded against the check(s) of its property (on a scratch copy of /repo/src with the
 patch applied; /repo itself is never touched) and record detected / missed / inconclusive in /verif/seeded/RESULTS.json."""
 import json, os, subprocess, sys, shutil, re
-ROOT = '/verif'
+ROOT = os.path.dirname(os.path.dirname(os.path.abspath(__file__)))
 tier = os.environ.get('TIER', 'quick')
 only = sys.argv[1:]
 res_path = os.path.join(ROOT, 'seeded', 'RESULTS.json')
